@@ -439,6 +439,16 @@ def special_items():
                ("special", "ignored-record-variant", "none", "plain", "ignore"))
     yield Item(["Unwrap", "TryUnwrap"], "#[unwrap(ref, ref_mut)]\n#[try_unwrap(ref, ref_mut)]\npub enum @N@<T> { A(T), #[unwrap(ignore)] #[try_unwrap(ignore)] N { x: T }, U }",
                ("special", "ignored-record-variant", "T", "plain", "ref,ref_mut+ignore"))
+    # enums with a single variant (catch-all arms the expansions add for other variants become unreachable patterns)
+    for body, tag in (("A(i32)", "tuple1"), ("A { x: i32, y: i64 }", "named2"), ("U", "unit"), ("A()", "empty-tuple")):
+        yield Item(["Add", "Sub", "BitAnd", "BitOr", "BitXor", "Not", "Neg"], "pub enum @N@ { %s }" % body, ("special", "single-variant-enum", "none", "plain", "ops:" + tag))
+        yield Item(["Mul", "Div", "Rem", "Shl", "Shr"], "#[mul(forward)]\n#[div(forward)]\n#[rem(forward)]\n#[shl(forward)]\n#[shr(forward)]\npub enum @N@ { %s }" % body,
+                   ("special", "single-variant-enum", "none", "plain", "mul-forward:" + tag))
+    yield Item(["Add", "Not"], "pub enum @N@<T> { A(T, T) }", ("special", "single-variant-enum", "T", "plain", "ops:generic"))
+    yield Item(["Error", "Display", "Debug"], '#[display("e")]\npub enum @N@ { A { source: ::std::fmt::Error } }', ("special", "single-variant-enum", "none", "plain", "error"))
+    yield Item(["Error", "Display", "Debug"], '#[display("e")]\npub enum @N@ { A(i32, i32) }', ("special", "single-variant-enum", "none", "plain", "error-no-source"))
+    yield Item(["From", "TryInto", "Display", "Debug"], '#[try_into(owned, ref, ref_mut)]\npub enum @N@ { A(i32) }', ("special", "single-variant-enum", "none", "plain", "conv"))
+    yield Item(["TryFrom"], "#[try_from(repr)]\n#[repr(u8)]\npub enum @N@ { A = 3 }", ("special", "single-variant-enum", "none", "plain", "try_from"))
     # generic Error whose source is an associated type of a parameter (the bound must be put on the projection)
     yield Item(["Error", "Display", "Debug"], '#[display("e")]\npub struct @N@<T: Tr> { source: <T as Tr>::Assoc }', ("special", "error-assoc-source", "T", "plain", "qself"))
     yield Item(["Error", "Display", "Debug"], '#[display("e")]\npub struct @N@<T: Tr>(T::Assoc);', ("special", "error-assoc-source", "T", "plain", "path"))
